@@ -57,6 +57,10 @@ structure Oracle where
 inductive Pc
   /-- write the stream header -/
   | start
+  /-- entry of `component.Negotiator(addr, secret, true)` — the receiving side, what
+  `component.ReceiveSession` runs: not implemented, the negotiator returns an error before any I/O
+  (it panicked before the `fix:` commit) -/
+  | recvStart
   /-- read up to the peer's stream header; `pi`: a processing instruction was already seen -/
   | readHdr (pi : Bool)
   /-- write the handshake element; `id`: the peer's header carried a stream id -/
@@ -83,6 +87,9 @@ structure Conf where
 
 def init (script : List Item) : Conf := { pc := .start, tr := [], io := 0, script := script }
 
+/-- the receiving side (`component.ReceiveSession`) -/
+def initRecv (script : List Item) : Conf := { pc := .recvStart, tr := [], io := 0, script := script }
+
 /-- one write; `next`: where to go when it succeeds -/
 def write (O : Oracle) (c : Conf) (next : Pc) : Conf :=
   if O.fault c.io || (O.cancel c.tr && O.dlWr) then
@@ -102,6 +109,7 @@ def read (O : Oracle) (c : Conf) (k : Item → Pc) : Conf :=
 def step (O : Oracle) (c : Conf) : Conf :=
   match c.pc with
   | .start => write O c (.readHdr false)
+  | .recvStart => { c with pc := .fail .proto }
   | .readHdr pi => read O c fun
     | .pi => if pi then .fail .proto else .readHdr true
     | .hdr id => .writeHs id
